@@ -137,4 +137,33 @@ var mfiles = []*MFile{
 			{Func: "http.writeVarintString", CallHints: map[string]string{"typed.WriteBuffer.WriteUvarint": "g_WriteUvarint!recv"}},
 		},
 	},
+	{
+		// C15: what peer selection is FED with.
+		// retry.go: the request's previously-selected set (getHost incl. its search loop with an early
+		// return, AddSelectedPeer incl. the nil-map / composite-literal / insertion branches,
+		// PrevSelectedPeers).  `rs == nil` is hinted false: the functions are translated for a
+		// request that HAS a RequestState (the nil receiver returns at once: no retries, nothing to avoid).
+		// peer.go / mex.go: the load the score calculators read: Peer.NumConnections and
+		// Peer.NumPendingOutbound (both range loops, over the outbound AND the inbound connections,
+		// each adding the connection's OUTBOUND exchange count) and messageExchangeSet.count.
+		// Lock operations are dropped (sequential meaning).  A messageExchange is opaque (no field
+		// represented): only the number of entries of an exchange set is read.
+		Name:    "GenPeerSel",
+		Imports: []string{"Base.GoSemColl"},
+		Structs: []*StructRep{
+			{Type: "tchannel.RequestState", Only: []string{"SelectedPeers"}},
+			{Type: "tchannel.messageExchange", Only: []string{"msgID"}},
+			{Type: "tchannel.messageExchangeSet", Only: []string{"exchanges"}},
+			{Type: "tchannel.Connection", Only: []string{"inbound", "outbound"}},
+			{Type: "tchannel.Peer", Only: []string{"inboundConnections", "outboundConnections"}},
+		},
+		Targets: []*MTarget{
+			mt("tchannel.getHost"),
+			{Func: "tchannel.RequestState.PrevSelectedPeers", Hints: map[string]string{"rs == nil": "false"}},
+			{Func: "tchannel.RequestState.AddSelectedPeer", Hints: map[string]string{"rs == nil": "false"}},
+			mt("tchannel.messageExchangeSet.count"),
+			mt("tchannel.Peer.NumConnections"),
+			mt("tchannel.Peer.NumPendingOutbound"),
+		},
+	},
 }
